@@ -17,6 +17,9 @@
 (*          the parents of a commit are the ones written in the commit     *)
 (*   r0, rtips0, shal0   receiver's store, ref values and .git/shallow     *)
 (*          before                                                         *)
+(*   dang   objects in r0 that the receiver's refs do not reach and whose   *)
+(*          own closure it lacks (Transfer: cs.dg): the receiver is         *)
+(*          complete w.r.t. its refs, its store is not closed               *)
 (*   r1, rtips1, shal1   ... after (projected from the directory by a      *)
 (*          fresh reader); rtips1 includes the wanted values after a fetch *)
 (*   depth  0, or the depth of a depth-limited fetch / clone               *)
@@ -141,7 +144,7 @@ Judge(t) ==
             ELSE IF t.gitok = 0 THEN "Identity.git"
             ELSE "ok"
         clause ==
-            IF ~ClosedCut(U, SeqSet(t.sshal), sstore) \/ ~ClosedCut(U, shal0, r0) \/ ~(ClosureCut(U, shal0, SeqSet(t.rtips0)) \subseteq r0)
+            IF ~ClosedCut(U, SeqSet(t.sshal), sstore) \/ ~ClosedCut(U, shal0, r0 \ SeqSet(t.dang)) \/ ~(ClosureCut(U, shal0, SeqSet(t.rtips0)) \subseteq r0)
                \/ ~(srefs \subseteq sstore) THEN "Antecedent"
             ELSE IF sndClause # "ok" THEN (IF t.snd = "g" THEN "SpecVsGit:" \o sndClause ELSE sndClause)
             \* a request for an object that no advertised ref reaches was served
